@@ -104,7 +104,7 @@ func parse(t hx.TB, src string) (*ir.Module, string) {
 func TestEveryOffsetOnTestdata(t *testing.T) {
 	const test = "EveryOffsetOnTestdata"
 	hx.Rule(test, "every .ll file of the repository's testdata (parsed) x every failure offset k in 0..len(String()) (thorough) / every 7th offset plus the first and last 200 (quick), with a writer that keeps failing and one that would accept later writes: returned n = bytes accepted, err = the writer's first error (identity), bytes delivered = String()[:k], no Write after the failure; healthy writer: bytes = String(), n = len; distinct case = (module, k, mode)")
-	files := corpus.RepoTestdata()
+	files := corpus.Fixed()
 	if len(files) == 0 {
 		t.Fatalf("no testdata found under %s", corpus.Repo())
 	}
